@@ -10,7 +10,7 @@ from ..model import AnalysisError, ClassInfo, FuncInfo, Program, dotted, norm
 from ..report import Check
 from ..types import FuncScope, types_of, walk_own
 from ..util import classify_cond, const_value, guard_edges, is_unset_expr, key_reads, short
-from .c06 import _member_vars, from_json_funcs, json_param
+from .c06 import _member_vars, from_json_funcs, json_param, model_program
 from .common import EXC, V20
 from .sentinel import sent_truth
 from .wire import ERROR_SPEC, REQUEST_SPEC, RESPONSE_SPEC, check_wire_shape
@@ -75,6 +75,7 @@ def run(ck: Check, prog: Program) -> None:
                'parameter forwarded through every nested deserialiser; the JSON encoder covers every message class.')
     ck.not_decided += ['value equality after JSON encode/decode for arbitrary payloads (floats, astral characters) — json\'s semantics',
                        'equality of reconstructed objects on concrete data']
+    prog = model_program(prog)
     interp = Interp(prog)
     ty = types_of(prog)
     # ---- WIRE-TABLE ------------------------------------------------------------------------------
@@ -177,33 +178,51 @@ def run(ck: Check, prog: Program) -> None:
 
 
 def _batch_forms(ck: Check, prog: Program, ci: ClassInfo, elem: str) -> None:
+    from ..flow import Flow
     tj, fj = ci.methods['to_json'], ci.methods['from_json']
     ck.functions |= {tj.qualname, fj.qualname}
     ok_w = False
     fields = set()
-    for st in walk_own(tj.node):
-        if isinstance(st, ast.Return) and isinstance(st.value, ast.ListComp):
-            v = st.value
-            gen = v.generators[0]
-            if len(v.generators) == 1 and not gen.ifs and isinstance(v.elt, ast.Call) and isinstance(v.elt.func, ast.Attribute) \
-                    and v.elt.func.attr == 'to_json' and dotted(v.elt.func.value) == dotted(gen.target) and \
-                    (dotted(gen.iter) or '').startswith('self'):
-                ok_w = True
-                fields.add(dotted(gen.iter))
+    cfg = CFG(tj, prog)
+    fl = Flow(cfg)
+    for n in cfg.stmt_nodes():
+        st = n.ast
+        if n.kind == 'stmt' and isinstance(st, ast.Return) and st.value is not None:
+            for sq in fl.seq(n, st.value):
+                if sq.kind != 'iter':
+                    continue
+                tgt = dotted(sq.target) if sq.target is not None else None
+                elt_ok = bool(sq.elt) and all(
+                    isinstance(x.expr, ast.Call) and isinstance(x.expr.func, ast.Attribute) and x.expr.func.attr == 'to_json'
+                    and not x.expr.args and dotted(x.expr.func.value) == tgt for x in sq.elt)
+                if sq.total and not sq.reordered and elt_ok and tgt and (dotted(sq.iter) or '').startswith('self'):
+                    ok_w = True
+                    fields.add(dotted(sq.iter))
+                else:
+                    ok_w = False
+                    fields.clear()
+                    break
     ck.ob('BATCH-FORM', f'{ci.name}.to_json: list of every element\'s wire form in storage order', ok_w)
     if not ok_w:
         ck.finding('BATCH-FORM', tj.qualname, 'batch wire form', tj.module.rel, tj.node.lineno,
                    f'{ci.name}.to_json must return [e.to_json() for e in <stored elements>] without filter or reordering')
     ok_r = False
-    for st in walk_own(fj.node):
-        if isinstance(st, ast.Return) and isinstance(st.value, ast.Call) and dotted(st.value.func) == 'cls':
+    cfg = CFG(fj, prog)
+    fl = Flow(cfg)
+    for n in cfg.stmt_nodes():
+        st = n.ast
+        if n.kind == 'stmt' and isinstance(st, ast.Return) and isinstance(st.value, ast.Call) and dotted(st.value.func) == 'cls':
             stars = [a.value for a in st.value.args if isinstance(a, ast.Starred)]
-            if len(stars) == 1 and isinstance(stars[0], (ast.GeneratorExp, ast.ListComp)):
-                g = stars[0]
-                gen = g.generators[0]
-                if len(g.generators) == 1 and not gen.ifs and isinstance(g.elt, ast.Call) and isinstance(g.elt.func, ast.Attribute) and \
-                        g.elt.func.attr == 'from_json' and g.elt.args and dotted(g.elt.args[0]) == dotted(gen.target) and \
-                        dotted(gen.iter) == json_param(fj):
+            if len(stars) != 1:
+                continue
+            sqs = fl.seq(n, stars[0])
+            if len(sqs) == 1 and sqs[0].kind == 'iter':
+                sq = sqs[0]
+                tgt = dotted(sq.target) if sq.target is not None else None
+                elt_ok = bool(sq.elt) and all(
+                    isinstance(x.expr, ast.Call) and isinstance(x.expr.func, ast.Attribute) and x.expr.func.attr == 'from_json'
+                    and x.expr.args and dotted(x.expr.args[0]) == tgt for x in sq.elt)
+                if sq.total and not sq.reordered and elt_ok and tgt and dotted(sq.iter) == json_param(fj):
                     ok_r = True
     ck.ob('BATCH-FORM', f'{ci.name}.from_json: every element deserialised, in array order', ok_r)
     if not ok_r:
@@ -213,10 +232,18 @@ def _batch_forms(ck: Check, prog: Program, ci: ClassInfo, elem: str) -> None:
     ext = ci.methods.get('extend')
     ok_s = False
     if ext is not None:
+        par = ext.params[1].arg
         for st in walk_own(ext.node):
             if isinstance(st, ast.Call) and isinstance(st.func, ast.Attribute) and st.func.attr == 'extend' and \
-                    dotted(st.func.value) in fields and st.args and dotted(st.args[0]) == ext.params[1].arg:
+                    dotted(st.func.value) in fields and st.args and dotted(st.args[0]) == par:
                 ok_s = True
+            # for x in <param>: self._items.append(x)
+            if isinstance(st, ast.For) and dotted(st.iter) == par and isinstance(st.target, ast.Name) and not st.orelse:
+                apps = [x for b in st.body for x in ast.walk(b) if isinstance(x, ast.Call) and isinstance(x.func, ast.Attribute)
+                        and x.func.attr == 'append' and dotted(x.func.value) in fields]
+                if len(apps) == 1 and len(apps[0].args) == 1 and dotted(apps[0].args[0]) == st.target.id and \
+                        not any(isinstance(x, (ast.If, ast.Continue, ast.Break, ast.Return)) for b in st.body for x in ast.walk(b)):
+                    ok_s = True
     ck.ob('BATCH-FORM', f'{ci.name}.extend stores the elements in the order given', ok_s)
     if not ok_s:
         ck.finding('BATCH-FORM', f'{ci.qualname}.extend', 'storage order', ci.module.rel, ext.node.lineno if ext else ci.node.lineno,
@@ -317,19 +344,25 @@ def _encoder(ck: Check, prog: Program) -> None:
     ck.functions.add(d.qualname)
     listed: List[ClassInfo] = []
     ret_ok = False
+    from ..flow import Flow
     cfg = CFG(d, prog)
+    fl = Flow(cfg)
     for n in cfg.nodes:
-        if n.kind == 'cond' and isinstance(n.ast, ast.Call) and dotted(n.ast.func) == 'isinstance':
-            tp = n.ast.args[1]
-            for e in (tp.elts if isinstance(tp, ast.Tuple) else [tp]):
-                ent = prog.resolve(d.module, e)
-                if isinstance(ent, ClassInfo):
-                    listed.append(ent)
+        if n.kind == 'cond' and isinstance(n.ast, ast.Call) and dotted(n.ast.func) == 'isinstance' and len(n.ast.args) == 2:
+            here: List[ClassInfo] = []
+            for alt in fl.alts(n, n.ast.args[1]):
+                tp = alt.expr
+                for e in (tp.elts if isinstance(tp, ast.Tuple) else [tp]):
+                    ent = prog.resolve(d.module, e)
+                    if isinstance(ent, ClassInfo):
+                        here.append(ent)
             obj = dotted(n.ast.args[0])
-            for e2 in cfg.succ[n.id]:
-                if e2.label == 'T' and isinstance(e2.dst.ast, ast.Return) and isinstance(e2.dst.ast.value, ast.Call) and \
-                        norm(e2.dst.ast.value) == f'{obj}.to_json()':
+            # a return of <obj>.to_json() that is reached only when this test held
+            for m in cfg.stmt_nodes():
+                if m.kind == 'stmt' and isinstance(m.ast, ast.Return) and isinstance(m.ast.value, ast.Call) and \
+                        norm(m.ast.value) == f'{obj}.to_json()' and any(g.src is n and g.label == 'T' for g in guard_edges(cfg, m)):
                     ret_ok = True
+                    listed += here
     need = []
     for q in (V20, EXC):
         for ci in prog.classes.values():
